@@ -17,6 +17,7 @@ R = {
  "C05-g": (7, True, "reported by the C12 check (is_canonical is C12 code shared with covers)", "k >= 4 and a base group with a class whose only smaller renumbering starts at row 1: covers(*433, 4) has 5 entries instead of 4"),
  "C01-g": (7, True, "reported by C02 / C04 T4-none-outside-ranges and the sibling cross-check at first run; the rule now also runs under C01 and additionally decides that no in-range tuple is rejected by the guard alone (second shape: dimension 3, size 1)", "a symbol printed through SimpleDSym with size <= dim - 2: the cubic tiling <1.1:1 3:1,1,1,1:4,3,4> prints 4,3,0"),
  "C09-g": (7, True, "", "a word u c u^-1 with |u| >= 2 reaching relator_representative: 3D symbol <1.1:4 3:2 4,3 4,4 3,1 2 3 4:4,2,6 6>"),
+ "C20-g": (7, True, "", "IntPartition unite(a, b) with b never seen and a >= b: unite(4, 3) on fresh elements"),
  "C19-g": (7, True, "", "undirected edge cut with source label > sink label; inside_vertices is then the sink's side"),
 }
 for sid, (rnd, first, strength, needs) in R.items():
